@@ -97,6 +97,8 @@ def _programs(tier):
                 tests = [[["==", "good"]], [[op, "good"]], [["in", "good"]]]
                 tests[pos] = [[op, kind]]
                 progs.append({"tests": tests})
+    for i in range(len(SPECIAL)):
+        progs.append({"special": i})
     if tier == "thorough":
         # two bad sites in different tests, and all-good programs of every op pair
         for o1, o2 in itertools.product(OPS, OPS):
@@ -106,7 +108,36 @@ def _programs(tier):
     return progs
 
 
+_EX = ("from inline_snapshot import snapshot\nfrom inline_snapshot.testing import Example\n\n\n"
+       "def test_outer():\n    Example('from inline_snapshot import snapshot\\ndef test_a():\\n    assert 1 == snapshot()\\n')"
+       ".run_inline(['--inline-snapshot=%s'], %s=%s)\n")
+_PAR = "import pytest\nfrom inline_snapshot import snapshot\n\n\n@pytest.mark.parametrize('x', %s)\ndef test_p(x):\n    %s\n"
+_SH = "from inline_snapshot import snapshot\n\ns = snapshot(%s)\n\n\ndef test_a():\n    %s\n\n\ndef test_b():\n    %s\n"
+T = "test_something.py::"
+SPECIAL = []
+for _op, _st in (("<=", "assert x <= snapshot()"), (">=", "assert x >= snapshot()"), ("in", "assert x in snapshot()"),
+                 ("[k]", "assert snapshot()['a'] <= x"), ("==", "assert (x, 5)[1] == snapshot()")):
+    SPECIAL.append({"src": _PAR % ("[1, 2, 3]", _st), "exp": {T + "test_p[1]": True, T + "test_p[2]": True, T + "test_p[3]": True}, "name": "param-empty" + _op})
+SPECIAL += [
+    {"src": _PAR % ("[1, 3, 2]", "assert x <= snapshot(2)"), "exp": {T + "test_p[1]": False, T + "test_p[3]": True, T + "test_p[2]": False}, "name": "param-wrong<="},
+    {"src": _PAR % ("[5, 4, 6]", "assert x in snapshot([5, 6])"), "exp": {T + "test_p[5]": False, T + "test_p[4]": True, T + "test_p[6]": False}, "name": "param-wrong-in"},
+    {"src": _PAR % ("[5, 4]", "assert x == snapshot(5)"), "exp": {T + "test_p[5]": False, T + "test_p[4]": True}, "name": "param-wrong=="},
+    {"src": _SH % ("", "assert 1 <= s", "assert 2 <= s"), "exp": {T + "test_a": True, T + "test_b": True}, "name": "shared-empty<="},
+    {"src": _SH % ("", "assert 1 in s", "assert 2 in s"), "exp": {T + "test_a": True, T + "test_b": True}, "name": "shared-empty-in"},
+    {"src": _SH % ("1", "assert 1 <= s", "assert 2 <= s"), "exp": {T + "test_a": False, T + "test_b": True}, "name": "shared-wrong<="},
+    {"src": _SH % ("[1]", "assert 1 in s", "assert 2 in s"), "exp": {T + "test_a": False, T + "test_b": True}, "name": "shared-wrong-in"},
+    {"src": _SH % ("{'a': 1}", "assert s['a'] == 1", "assert s['b'] == 2"), "exp": {T + "test_a": False, T + "test_b": True}, "name": "shared-missing-key"},
+]
+for _fl in ("create", ""):
+    for _arg, _val, _bad in (("reported_categories", "snapshot(['fix'])", True), ("reported_categories", "snapshot()", True),
+                              ("reported_categories", "snapshot(['create'])", False),
+                              ("changed_files", "snapshot({})", _fl == "create"), ("changed_files", "snapshot()", True)):
+        SPECIAL.append({"src": _EX % (_fl, _arg, _val), "exp": {T + "test_outer": _bad}, "name": "example-%s-%s-%s" % (_fl, _arg, _val)})
+
+
 def source(prog):
+    if "special" in prog:
+        return SPECIAL[prog["special"]]["src"]
     out = ["from inline_snapshot import snapshot\n"]
     for ti, sites in enumerate(prog["tests"]):
         out.append("\n\ndef test_%d():\n" % ti)
@@ -125,6 +156,8 @@ def build(tier, seed):
 
 
 def _expect(prog):
+    if "special" in prog:
+        return dict(SPECIAL[prog["special"]]["exp"])
     return {"test_something.py::test_%d" % ti: any(k in BAD for _, k in sites) for ti, sites in enumerate(prog["tests"])}
 
 
@@ -133,6 +166,8 @@ def run_case(case):
 
     prog, cfg = case["prog"], case["cfg"]
     src = source(prog)
+    if cfg["flags"] == ["disable"] and "\ns = snapshot()\n" in src:
+        return []  # an empty module-level snapshot() raises at import time when disabled: outside the property's scope
     d = plugin.mk_project({"test_something.py": src, "pyproject.toml": ""})
     try:
         args = [] if cfg["flags"] is None else ["--inline-snapshot=" + ",".join(cfg["flags"])]
@@ -178,7 +213,7 @@ def run_task(task):
             out["violations"] += vs
             lab = "viol:" + vs[0]["what"]
         elif any(exp.values()) and (set(fl) & {"create", "fix", "update", "review"}):
-            out["nontrivial"].append(str(prog["tests"]) + "|" + lab)
+            out["nontrivial"].append(str(prog.get("tests", prog.get("special"))) + "|" + lab)
         out["outcomes"][lab] = out["outcomes"].get(lab, 0) + 1
     out["samples"].append({"program": source(prog), "flags": task["cfgs"][2]["flags"], "expected_failing_tests": [k for k, v in exp.items() if v]})
     return out
